@@ -6,9 +6,11 @@
   * `viewGet`   : the value of one key  = buffer entry if there is one, else snapshot entry, tombstones hidden;
   * `view`      : the listing of a range = every key of the (sorted, duplicate free) key universe that lies in
                   `[lo, hi)` (`hi = []` means unbounded) and has a value under `viewGet`, in ascending order;
-  * `liveWrites`: program order semantics of set/delete/staging/release/cleanup as a stack of write LOGS
-                  (newest first): release appends the level to the one below, cleanup throws it away.  The view
-                  of a transaction is `viewGet snap (liveWrites ops)`: the latest live write wins.
+  * `liveWrites`: program order semantics of set/delete/staging/release/cleanup/checkpoint/revert as a stack of
+                  write LOGS (newest first), one log per undo mark (staging level or checkpoint): release
+                  appends the level's log to the one below, cleanup throws the level and everything newer away,
+                  revert throws away everything written after the checkpoint.  The view of a transaction is
+                  `viewGet snap (liveWrites ops)`: the latest live write wins.
 
   Core only (linked into the driver).
 -/
@@ -78,28 +80,87 @@ def NoEmpty (l : List KV) : Prop := ∀ kv ∈ l, kv.2 ≠ []
 instance (l : List KV) : Decidable (NoEmpty l) := by
   unfold NoEmpty; exact inferInstance
 
-/-- operations on the write buffer; `release`/`cleanup` address the innermost live staging level -/
+/-- operations on the write buffer.  `release`/`cleanup` address the innermost live staging level,
+`revert i` the `i`-th checkpoint that is still valid (counted from the oldest, as `checkpoint` numbers them) -/
 inductive BOp
   | set (k v : Bytes)
   | del (k : Bytes)
   | staging
   | release
   | cleanup
+  | checkpoint
+  | revert (i : Nat)
   deriving Repr, DecidableEq
 
-/-- stack of write logs, innermost level first, each log newest first -/
-def stepLog : List (List KV) → BOp → List (List KV)
-  | l :: r, .set k v => if v = [] then l :: r else ((k, v) :: l) :: r   -- Set rejects an empty value
-  | l :: r, .del k => ((k, []) :: l) :: r
-  | st, .staging => [] :: st
-  | l₁ :: l₂ :: r, .release => (l₁ ++ l₂) :: r
-  | _ :: l₂ :: r, .cleanup => l₂ :: r
-  | st, _ => st
+/-- the writes made since one undo mark was set (a staging level or a checkpoint), newest first -/
+structure Seg where
+  isStage : Bool
+  log : List KV
+  deriving Repr, DecidableEq
 
-def logStack (ops : List BOp) : List (List KV) := ops.foldl stepLog [[]]
+/-- write logs: one segment per live undo mark, newest mark first, and the writes older than every mark -/
+structure LogState where
+  segs : List Seg
+  base : List KV
+  deriving Repr, DecidableEq
+
+def segCps : List Seg → Nat
+  | [] => 0
+  | s :: r => (if s.isStage then 0 else 1) + segCps r
+
+def pushWrite (w : KV) : LogState → LogState
+  | ⟨[], base⟩ => ⟨[], w :: base⟩
+  | ⟨s :: r, base⟩ => ⟨⟨s.isStage, w :: s.log⟩ :: r, base⟩
+
+/-- hand a log down to whatever lies below it -/
+def appendBelow (log : List KV) : List Seg → List KV → List Seg × List KV
+  | [], base => ([], log ++ base)
+  | t :: r, base => (⟨t.isStage, log ++ t.log⟩ :: r, base)
+
+/-- release: the innermost staging level disappears as an undo boundary, its writes (and every newer mark) stay -/
+def releaseSegs : List Seg → List KV → Option (List Seg × List KV)
+  | [], _ => none
+  | s :: r, base =>
+    if s.isStage then some (appendBelow s.log r base)
+    else match releaseSegs r base with
+      | some (r', base') => some (s :: r', base')
+      | none => none
+
+/-- cleanup: the innermost staging level and everything newer is thrown away -/
+def cleanupSegs : List Seg → Option (List Seg)
+  | [] => none
+  | s :: r => if s.isStage then some r else cleanupSegs r
+
+/-- revert to checkpoint `i`: everything written after it is thrown away, the checkpoint itself stays; refused
+(`none`) when it does not exist any more or a staging level opened after it is still open -/
+def revertSegs (i : Nat) : List Seg → Option (List Seg)
+  | [] => none
+  | s :: r =>
+    if s.isStage then none
+    else if segCps r = i then some (⟨false, []⟩ :: r)
+    else revertSegs i r
+
+def stepLog (st : LogState) : BOp → LogState
+  | .set k v => if v = [] then st else pushWrite (k, v) st          -- Set rejects an empty value
+  | .del k => pushWrite (k, []) st
+  | .staging => ⟨⟨true, []⟩ :: st.segs, st.base⟩
+  | .checkpoint => ⟨⟨false, []⟩ :: st.segs, st.base⟩
+  | .release => match releaseSegs st.segs st.base with
+    | some (segs, base) => ⟨segs, base⟩
+    | none => st
+  | .cleanup => match cleanupSegs st.segs with
+    | some segs => ⟨segs, st.base⟩
+    | none => st
+  | .revert i => match revertSegs i st.segs with
+    | some segs => ⟨segs, st.base⟩
+    | none => st
+
+def logState (ops : List BOp) : LogState := ops.foldl stepLog ⟨[], []⟩
+
+def liveOf (segs : List Seg) (base : List KV) : List KV := (segs.map (·.log)).flatten ++ base
 
 /-- all writes that are still live after `ops`, newest first -/
-def liveWrites (ops : List BOp) : List KV := (logStack ops).flatten
+def liveWrites (ops : List BOp) : List KV := liveOf (logState ops).segs (logState ops).base
 
 /-- staging depth after `ops`, relative to the depth `d` before them; `none` if some release/cleanup would
 close a level that was opened before `ops` -/
@@ -112,20 +173,38 @@ def netDepth : Nat → List BOp → Option Nat
   | d + 1, .cleanup :: r => netDepth d r
   | d, .set _ _ :: r => netDepth d r
   | d, .del _ :: r => netDepth d r
+  | d, .checkpoint :: r => netDepth d r
+  | d, .revert _ :: r => netDepth d r
 
-/-- `ops` opens and closes only its own staging levels -/
+/-- `ops` opens and closes only its own staging levels (checkpoints and reverts are unrestricted: a revert
+cannot reach below a staging level that is still open) -/
 def Bracketed (ops : List BOp) : Prop := netDepth 0 ops = some 0
 
 instance (ops : List BOp) : Decidable (Bracketed ops) := by unfold Bracketed; exact inferInstance
 
-def BOp.isWrite : BOp → Bool
-  | .set _ _ => true
-  | .del _ => true
-  | _ => false
+/-- a block of operations after a checkpoint: `(d, n)` = staging depth relative to the checkpoint and the number
+of `release`s that hit a level OLDER than the checkpoint (allowed: releasing does not touch the content);
+`none` if a `cleanup` would discard a level older than the checkpoint (that cuts the checkpoint away) -/
+def cpBlock : Nat → Nat → List BOp → Option (Nat × Nat)
+  | d, n, [] => some (d, n)
+  | d, n, .staging :: r => cpBlock (d + 1) n r
+  | 0, n, .release :: r => cpBlock 0 (n + 1) r
+  | 0, _, .cleanup :: _ => none
+  | d + 1, n, .release :: r => cpBlock d n r
+  | d + 1, n, .cleanup :: r => cpBlock d n r
+  | d, n, .set _ _ :: r => cpBlock d n r
+  | d, n, .del _ :: r => cpBlock d n r
+  | d, n, .checkpoint :: r => cpBlock d n r
+  | d, n, .revert _ :: r => cpBlock d n r
 
-/-- only sets and deletes -/
-def WritesOnly (ops : List BOp) : Prop := ∀ op ∈ ops, op.isWrite = true
+def BOp.revertsAtLeast (i : Nat) : BOp → Bool
+  | .revert j => decide (i ≤ j)
+  | _ => true
 
-instance (ops : List BOp) : Decidable (WritesOnly ops) := by unfold WritesOnly; exact inferInstance
+/-- no revert in `ops` goes to a checkpoint older than number `i` -/
+def RevertsAtLeast (i : Nat) (ops : List BOp) : Prop := ∀ op ∈ ops, op.revertsAtLeast i = true
+
+instance (i : Nat) (ops : List BOp) : Decidable (RevertsAtLeast i ops) := by
+  unfold RevertsAtLeast; exact inferInstance
 
 end CGV.Overlay
